@@ -60,8 +60,13 @@ var c03Challenges = []string{
 	`Bearer realm="` + strings.Repeat("A", 5000) + `"`, `Bearer scope="`, `Bearer realm="x",service="s",scope=`, `,`, `"`, `=`, `Bearer realm=","`,
 }
 
+// c03Big: thorough tier only, every 40th case carries one layer of 200-230 MB, i.e. three real download
+// parts (100 MB, 100 MB, rest) with the faults aimed at the CDN requests of those parts.
+var c03Big = false
+
 func c03Gen(r *kit.Rand, idx int, tiny []byte) c03Case {
 	c := c03Case{Index: idx, Name: fmt.Sprintf("ns%d/m%d:%s", r.Intn(3), r.Intn(3), kit.Pick(r, []string{"latest", "v2", "Q4"}))}
+	big := c03Big && idx%40 == 7
 	nv := 1
 	if r.Chance(1, 2) {
 		nv = 2
@@ -103,6 +108,10 @@ func c03Gen(r *kit.Rand, idx int, tiny []byte) c03Case {
 				ver.Layers = append(ver.Layers, mk(m, kit.Pick(r, []int{0, 1, 37, 4096, 65536, 300000})))
 			}
 		}
+		if big && v == 0 {
+			b := r.Bytes(200_000_000 + r.Intn(30_000_000))
+			ver.Layers = append(ver.Layers, c03Layer{Media: "application/vnd.ollama.image.license", Size: len(b), data: b})
+		}
 		cfg := map[string]any{"model_format": "gguf", "model_family": "llama", "model_type": "1B", "file_type": "F16", "architecture": "amd64", "os": "linux", "v": r.Intn(1 << 30)}
 		cb, _ := json.Marshal(cfg)
 		ver.Config = c03Layer{Media: "application/vnd.docker.container.image.v1+json", Size: len(cb), data: cb}
@@ -120,6 +129,9 @@ func c03Gen(r *kit.Rand, idx int, tiny []byte) c03Case {
 		}
 		nf := r.Range(1, 3)
 		chunkFaults := 0
+		if big {
+			at.Version = 0
+		}
 		for k := 0; k < nf; k++ {
 			var f Fault
 			switch r.Intn(12) {
@@ -142,11 +154,24 @@ func c03Gen(r *kit.Rand, idx int, tiny []byte) c03Case {
 				}
 				chunkFaults++
 				f = Fault{Kind: "cdn", Nth: r.Range(1, 3), Act: kit.Pick(r, []string{"truncate", "flip", "ignore-range", "status", "reset", "short-ok", "extra", "flip"}), Arg: int64(r.Intn(70000)), Code: kit.Pick(r, []int{500, 503, 404, 403})}
+				if big {
+					f.Nth = r.Range(1, 8)
+					f.Arg = int64(r.Intn(120_000_000))
+				}
 			}
 			at.Faults = append(at.Faults, f)
 		}
 		if at.Stream && r.Chance(1, 6) {
 			at.Disconnect = r.Range(1, 6)
+		}
+		if r.Chance(1, 7) {
+			// "corrupt, then abandon": an early layer arrives complete but damaged, a later CDN response
+			// stalls, and the client leaves while that layer is in flight (the attempt ends by cancellation,
+			// not by a registry error)
+			at.Stream = true
+			at.Faults = []Fault{{Kind: "cdn", Nth: 1, Act: "flip", Arg: int64(r.Intn(700))}, {Kind: "cdn", Nth: r.Range(2, 3), Act: "stall", Arg: 1500}}
+			at.Disconnect = r.Range(3, 9)
+			at.Resume = nil
 		}
 		if r.Chance(1, 5) {
 			ver := c.Versions[at.Version]
@@ -386,7 +411,7 @@ func runC03() {
 	cfg := rep.Cfg()
 	defer rep.Flush()
 	rep.Set("rule", "case i = PRNG(seed,'C03',i): 1-2 model versions (2-5 layers of 0 B..300 KB, layers shared between versions) and 1-4 pull attempts of one name against the real server binary; every attempt but the last carries 1-3 registry/CDN faults (5xx/4xx/404 on manifest, HEAD, blob GET, CDN; 401 with ~30 malformed challenge headers and with a well-formed one whose token endpoint is served; truncated/garbage/reset manifest; wrong or missing Content-Length on HEAD; redirect chains; CDN body truncated, bit-flipped, Range ignored, short, too long, reset), optional client disconnect after progress line k, optional synthetic resume state (multi-part -partial files, correct or corrupt). Oracle after every attempt: server alive; success => stored manifest equals the served one and every layer + config has the manifest's size and SHA-256 (re-hashed); failure => if the name resolves its manifest's layers are all intact; a fault-free attempt at the end succeeds (at most two further fault-free retries are allowed, e.g. after a digest mismatch from bytes left in the resume file) and the model can be shown. Non-trivial & distinct = distinct (sequence of fault kinds+acts per attempt, outcomes) among cases with at least one faulted attempt")
-	rep.Set("assumptions", []string{"served manifests are self-consistent (sizes and digests describe the blobs they name)", "single-part layers over the wire (<100 MB); multi-part layouts only through synthetic resume files", "process death is observed through /api/version + the server log"})
+	rep.Set("assumptions", []string{"served manifests are self-consistent (sizes and digests describe the blobs they name)", "quick tier: single-part layers over the wire (<100 MB), multi-part layouts through synthetic resume files; thorough tier adds real 200-230 MB layers (three download parts)", "process death is observed through /api/version + the server log"})
 	bin := os.Getenv("VERIF_OLLAMA_BIN")
 	work, err := os.MkdirTemp("", "verif-c03-")
 	if err != nil {
@@ -394,6 +419,7 @@ func runC03() {
 	}
 	defer os.RemoveAll(work)
 	tiny := tinyGGUF()
+	c03Big = cfg.Tier == "thorough"
 	n := cfg.N(96, 1600)
 	replayIdx := -1
 	if cfg.Replay != "" {
